@@ -456,6 +456,22 @@ def r11_15(run, model):
            witness="let t = ((1, 2), (3, 4)); t.1.0 reads (t.0).1 = 2 instead of 3 - both orders type-check on a symmetric tuple")
 
 
+def r11_17(run, model):
+    run.rule("R11.17", "what the parser accepts is lowered or reported, never dropped: the file-level grammar accepts an expression between "
+                       "items (parser::file calls expr), the AST has no place for one, so ast::lower::lower reports it - otherwise a call "
+                       "placed after a misplaced `}`, an unresolved name or an ill-typed expression at file level vanishes without a word")
+    FILE = "crates/parser/src/file.rs"
+    pf = model.fn("file", FILE)
+    premise = any(True for _ in S.calls(pf.body, "expr"))
+    lf = model.fn("lower", LOWER)
+    body = S.norm_ws(run.facts.text(LOWER, lf.body["sp"]))
+    handled = re.search(r"Expr::can_cast|cst::Expr::cast|\.exprs\(\)", body) is not None and ("push_error" in body or "lower_expr" in body)
+    run.ob("R11.17", "lower|an expression at file level is lowered or reported", (not premise) or handled, site(LOWER, lf.node["sp"]),
+           f"the file-level grammar parses expressions: {premise}; the lowering looks at them: {handled}",
+           witness="fn main() { .. }\n    string_println(\"after main\")   (the `}` closed main too early): `check` exits 0, the call is never "
+                   "executed, `helper() + no_such_function(1)` at file level is never reported")
+
+
 def r11_10(run, model):
     run.rule("R11.10", "the Pratt loop stops an operand exactly when the next operator binds *less* tightly than the context (`l_bp < min_bp`): "
                        "with `<=` equal powers stop too, and the only tie the tables allow - prefix (r_bp) against `.` (l_bp) - flips: "
@@ -497,6 +513,7 @@ def run(run, model):
     run.try_rule(r11_12, model)
     run.try_rule(r11_14, model)
     run.try_rule(r11_15, model)
+    run.try_rule(r11_17, model)
     from rules import c12 as _c12
     run.rule("R11.16", "an operator token reaches the tree as the operator that was written: token kinds are converted to syntax kinds by "
                        "discriminant, so the two enums are aligned index for index (shared with C12 R12.1)")
